@@ -415,6 +415,89 @@ def plan_C08(ctx):
         "the abstract reading of each tag string (index / dash / none / bad) is part of the specification's table and follows strconv.Atoi"])
 
 
+def limbs(n):
+    out = []
+    while n > 0:
+        out.append(n % 128)
+        n //= 128
+    return out
+
+
+def jo_call(op, b=None, n=0, flag=False, bits=None, nsec=0):
+    b = list(b or [])
+    try:
+        bytes(b).decode("utf-8")
+        u8 = True
+    except UnicodeDecodeError:
+        u8 = False
+    return {"op": op, "b": b, "n": {"neg": n < 0, "mag": limbs(abs(n))}, "flag": flag, "bits": list(bits or []), "nsec": nsec, "u8": u8}
+
+
+def plan_C15(ctx):
+    import struct
+    ctx.build()
+    maxtok = 12 if ctx.quick else 15
+    consts = "  MaxDepth = 3\n  MaxWidth = 3\n  MaxTokens = %d\n  Scalars = {\"n\", \"s\"}\n  Names = {\"a\", \"e\"}\n  Emit = TRUE\n" % maxtok
+    docs, st = fam_codec.mc_generic(ctx.work, "MCJSONOut", consts, "DoneIsValid StackMirrors ResetIsInit")
+    ctx.add_mc(st)
+    sym = {"n": jo_call("i64", n=7), "s": jo_call("str", b=b"x"), "a": b"a", "e": b""}
+    cases = []
+    for d in docs:
+        calls = []
+        for c in d["calls"]:
+            if c["op"] == "sc":
+                calls.append(sym[c["x"]])
+            elif c["op"] == "nf":
+                calls.append(jo_call("nf", b=sym[c["x"]]))
+            else:
+                calls.append(jo_call(c["op"]))
+        cases.append({"ev": "jsonout", "calls": calls, "pre": [calls] if d["docs"] else []})
+    # every container / scalar adjacency is in the enumeration above; the value universes follow
+    alpha = [b'"', b"\\", b"\n", b"\r", b"\t", b"\x00", b"\x1f", b" ", b"a", b"\x7f", b"\x80", "\u00e9".encode(), "\u2028".encode()]
+    strs = [bytes([i]) for i in range(256)] + [x + y for x in alpha for y in alpha]
+    if not ctx.quick:
+        strs += [x + y + z for x in alpha for y in alpha for z in alpha]
+    for sv in strs:
+        cases.append({"ev": "jsonout", "calls": [jo_call("str", b=sv)], "pre": []})
+        cases.append({"ev": "jsonout", "calls": [jo_call("so"), jo_call("nf", b=sv), jo_call("i64", n=1), jo_call("nf", b=b"next"), jo_call("str", b=sv), jo_call("eo")], "pre": []})
+    ints = sorted(set([0, 1, -1] + [s * (2 ** k + d) for k in range(0, 64) for d in (-1, 0, 1) for s in (1, -1)]))
+    for v in ints:
+        if -2 ** 63 <= v < 2 ** 63:
+            cases.append({"ev": "jsonout", "calls": [jo_call("sa"), jo_call("i64", n=v), jo_call("i64", n=v), jo_call("ea")], "pre": []})
+        if 0 <= v < 2 ** 64:
+            cases.append({"ev": "jsonout", "calls": [jo_call("u64", n=v)], "pre": []})
+    cases.append({"ev": "jsonout", "calls": [jo_call("u64", n=2 ** 64 - 1)], "pre": []})
+    floats = [0.0, -0.0, 1.0, -1.5, 0.1, 1e20, 1e21, 1e22, 1e-6, 1e-7, 5e-324, 1.7976931348623157e308, 123456789.125, 2.0 ** 53 + 2, 1 / 3]
+    for f in floats:
+        cases.append({"ev": "jsonout", "calls": [jo_call("f64", bits=struct.pack("<d", f))], "pre": []})
+        try:
+            cases.append({"ev": "jsonout", "calls": [jo_call("so"), jo_call("nf", b=b"f"), jo_call("f32", bits=struct.pack("<f", f)), jo_call("eo")], "pre": []})
+        except OverflowError:
+            pass
+    log("design check MCJSONOut: %d states, %d documents; %d cases with the value universes" % (st["distinct"], len(docs), len(cases)))
+    for c in cases:
+        c["cfg"] = fam_codec.CFGS["default"]
+    p1 = os.path.join(ctx.work, "mc_cases.ndjson")
+    fam_codec.write_cases(cases, p1, 0)
+    n = 5000 if ctx.quick else 300000
+    p2 = fam_codec.gen_random(ctx.pvh, ctx.work, n, ctx.seed, cfg="default", kind="jsonout", idbase=10000000, tag="rnd")
+    ctx.case_files = [p1, p2]
+    t1 = fam_codec.run_cases(ctx.pvh, p1, ctx.work, "mc")
+    t2 = fam_codec.run_cases(ctx.pvh, p2, ctx.work, "rnd")
+    trace = os.path.join(ctx.work, "all_trace.ndjson")
+    with open(trace, "w") as f:
+        f.write(open(t1).read())
+        f.write(open(t2).read())
+    verdicts, jst = vlib.judge(ctx.work, "TraceJSONOut", trace, ctx.env, ctx.open, tag="main")
+    rule = ("S->C: every well-nested call sequence of the JSONOutput machine up to %d output tokens (depth <= 3, two scalar kinds, names 'a' and ''), "
+            "fresh and re-used after Reset; all 256 one-byte strings, all pairs%s over a 13-class byte alphabet as values and as field names; every "
+            "2^k, 2^k+-1 as int64 / uint64; boundary floats; C->S: %d random call trees (depth <= 5, every scalar kind, hostile strings and names) on "
+            "outputters re-used after complete and abandoned documents. non-trivial = more than one call" % (maxtok, "" if ctx.quick else " and triples", n))
+    return finish(ctx, "TraceJSONOut", verdicts, [trace], jst, rule, [
+        "the real output is parsed with encoding/json (Decoder.Token with UseNumber, objects as ordered key lists so that duplicate or missing keys are visible)",
+        "for strings that are not valid UTF-8 only validity of the document is required"])
+
+
 def plan_C06(ctx):
     return system_family(ctx)
 
@@ -464,10 +547,11 @@ def plan_C12(ctx):
     return codec_family(ctx, 6000, 200000, mc_cfgs_quick=("both", "pa"), rnd_cfg="mix")
 
 
-PLANS = {"C08": plan_C08, "C04": plan_C04, "C06": plan_C06, "C11": plan_C11, "C03": plan_C03, "C10": plan_C10, "C18": plan_C18, "C12": plan_C12, "C01": plan_C01, "C02": plan_C02, "C05": plan_C05, "C09": plan_C09, "C14": plan_C14}
+PLANS = {"C15": plan_C15, "C08": plan_C08, "C04": plan_C04, "C06": plan_C06, "C11": plan_C11, "C03": plan_C03, "C10": plan_C10, "C18": plan_C18, "C12": plan_C12, "C01": plan_C01, "C02": plan_C02, "C05": plan_C05, "C09": plan_C09, "C14": plan_C14}
 MODULES = {k: "TraceCodec" for k in PLANS}
 MODULES["C18"] = "TracePrim"
 MODULES["C03"] = MODULES["C10"] = "TraceDecode"
 MODULES["C06"] = MODULES["C11"] = "TraceSystem"
 MODULES["C04"] = "TraceHostile"
 MODULES["C08"] = "TraceTypes"
+MODULES["C15"] = "TraceJSONOut"
